@@ -216,7 +216,9 @@ func NewACL(ctx context.Context, policies []*Policy) (*ACL, error) {
 							existingPerms.AllowedParameters[key] = []any{}
 						} else {
 							// Merge the two maps, appending values on key conflict.
-							existingPerms.AllowedParameters[key] = append(value, existingPerms.AllowedParameters[key]...)
+							// value belongs to the (shared, cached) policy: never
+							// append into its backing array.
+							existingPerms.AllowedParameters[key] = append(slices.Clone(value), existingPerms.AllowedParameters[key]...)
 						}
 					}
 				}
@@ -238,7 +240,7 @@ func NewACL(ctx context.Context, policies []*Policy) (*ACL, error) {
 							existingPerms.DeniedParameters[key] = []any{}
 						} else {
 							// Merge the two maps, appending values on key conflict.
-							existingPerms.DeniedParameters[key] = append(value, existingPerms.DeniedParameters[key]...)
+							existingPerms.DeniedParameters[key] = append(slices.Clone(value), existingPerms.DeniedParameters[key]...)
 						}
 					}
 				}
@@ -246,7 +248,7 @@ func NewACL(ctx context.Context, policies []*Policy) (*ACL, error) {
 
 			if len(pc.Permissions.RequiredParameters) > 0 {
 				if len(existingPerms.RequiredParameters) == 0 {
-					existingPerms.RequiredParameters = pc.Permissions.RequiredParameters
+					existingPerms.RequiredParameters = slices.Clone(pc.Permissions.RequiredParameters)
 				} else {
 					for _, v := range pc.Permissions.RequiredParameters {
 						if !slices.Contains(existingPerms.RequiredParameters, v) {
